@@ -135,12 +135,27 @@ func concurrentFacts(repo string) (string, error) {
 	var locked []string
 	waitUnderMutex, waitOnCond := false, false
 	failCond, recoverTakes := "", "unknown"
+	var putsBroadcast []string
 	for _, d := range files["promise.go"].Decls {
 		fd, ok := d.(*ast.FuncDecl)
 		if !ok || fd.Recv == nil || fd.Body == nil {
 			continue
 		}
 		stmts := fd.Body.List
+		if fd.Name.Name == "fulfill" || fd.Name.Name == "fail" {
+			// every statement that places a message in the mailbox is followed by a Broadcast
+			// on the condition variable the waiters sleep on
+			puts, woken := 0, 0
+			for i, st := range stmts {
+				if c19Render(fset, st) == "p.message <- r" {
+					puts++
+					if i+1 < len(stmts) && c19Render(fset, stmts[i+1]) == "p.set.Broadcast()" {
+						woken++
+					}
+				}
+			}
+			putsBroadcast = append(putsBroadcast, fmt.Sprintf("(%q, %d, %d)", fd.Name.Name, puts, woken))
+		}
 		switch fd.Name.Name {
 		case "fail":
 			// the test that decides whether the promise can still be failed
@@ -214,7 +229,8 @@ func concurrentFacts(repo string) (string, error) {
 	}
 	fmt.Fprintf(&sb, "def settersLocked : List (String × Bool) := [%s]\n", strings.Join(locked, ", "))
 	fmt.Fprintf(&sb, "def waitTakesUnderMutex : Bool := %v\ndef waitSleepsOnCond : Bool := %v\n", waitUnderMutex, waitOnCond)
-	fmt.Fprintf(&sb, "def failCond : String := %q\ndef recoverTakesMessage : String := %q\n\n", failCond, recoverTakes)
+	fmt.Fprintf(&sb, "def failCond : String := %q\ndef recoverTakesMessage : String := %q\n", failCond, recoverTakes)
+	fmt.Fprintf(&sb, "def putsThenBroadcast : List (String × Nat × Nat) := [%s]\n\n", strings.Join(putsBroadcast, ", "))
 	sb.WriteString("end Biogo.Generated.Concurrent\n")
 	return sb.String(), nil
 }
